@@ -107,6 +107,36 @@ func giantTextCase(t *mon.T) {
 	t.Count("text/giant-coefficient")
 }
 
+// limbWindowCase: coefficients whose quotient by a decimal limb (10^9, 10^18,
+// 10^19, their squares) sits at a machine-word boundary (2^31, 2^32, 2^63,
+// 2^64 and neighbours): Q*B + R. Digit-by-limb conversion loops that test the
+// wrong word for termination go wrong exactly there, and nowhere near the
+// powers of two and ten themselves.
+func limbWindowCase(t *mon.T) {
+	r := t.Rng
+	limbs := []int64{9, 18, 19, 38, 27, 36, 57}
+	b := dec.Pow10(limbs[r.Intn(len(limbs))])
+	q := new(big.Int).Lsh(bOne, []uint{31, 32, 63, 64, 96, 127, 128}[r.Intn(7)])
+	q.Add(q, big.NewInt([]int64{0, 0, 0, -1, 1}[r.Intn(5)]))
+	if r.Chance(1, 5) {
+		q.Mul(q, big.NewInt(r.Range(2, 9)))
+	}
+	var rem *big.Int
+	switch r.Intn(4) {
+	case 0:
+		rem = new(big.Int)
+	case 1:
+		rem = new(big.Int).Sub(b, bOne)
+	default:
+		rem, _ = new(big.Int).SetString(gen.Digits(r, int64(len(b.String())-1)), 10)
+	}
+	c := new(big.Int).Mul(q, b)
+	c.Add(c, rem)
+	e := []int64{0, -int64(len(b.String()) - 1), r.Range(-60, 60), r.Range(gen.MinExp, gen.MaxExp-int64(len(c.String())))}[r.Intn(4)]
+	textRoundTrip(t, dec.D{Form: dec.Finite, Neg: r.Bool(), C: c, E: e})
+	t.Count("text/limb-window")
+}
+
 func textRoundTrip(t *mon.T, d dec.D) {
 	r := t.Rng
 	a := br.ToApd(d)
@@ -373,7 +403,7 @@ func floatRoundTripCase(t *mon.T) {
 }
 
 func runC13(r *mon.Run) {
-	r.Rule = "cases: Decimals of all forms and signs, coefficient lengths 1..60 and ~200/~2000 digits (and a stratum of 100002..200001 digits whose exponent keeps the value within the limits), exponents over the whole +/-100000 range with " +
+	r.Rule = "cases: Decimals of all forms and signs, coefficient lengths 1..60 and ~200/~2000 digits (and a stratum of 100002..200001 digits whose exponent keeps the value within the limits; and coefficients Q*B+R with B a decimal limb 10^9..10^57 and Q at a machine-word boundary), exponents over the whole +/-100000 range with " +
 		"dense sampling at the switch-over points (adjusted exponent -5..-8, exponent -2..3, zeros with exponent -1997..-2003); each is encoded " +
 		"by String, Text G/g/E/e, MarshalText, Value and the %v %s %G %E %e %g verbs and parsed back (field-identical), by Text('f')/%f/%F " +
 		"(numerically equal, same sign), and through Decompose/Compose with buffers of every capacity class into clean and dirty destinations; " +
@@ -384,6 +414,8 @@ func runC13(r *mon.Run) {
 	r.Parallel("text", r.N(120000, 8000000), textRoundTripCase)
 	r.Parallel("text-giant", r.N(24, 600), giantTextCase)
 	r.Require("text/giant-coefficient", 20)
+	r.Parallel("text-limb-window", r.N(20000, 1000000), limbWindowCase)
+	r.Require("text/limb-window", 5000)
 	r.Parallel("compose", r.N(80000, 4000000), composeCase)
 	r.Parallel("float", r.N(150000, 10000000), floatRoundTripCase)
 	for _, cl := range []string{"form/Finite", "form/Infinite", "form/NaN", "form/sNaN", "enc/String", "enc/%v", "enc/f", "compose/Finite", "compose/sNaN", "float/set", "float/shortest-checked"} {
